@@ -6,7 +6,8 @@
    on every run by harness/gen_C03.py (gradient AND logd differences of the same object). *)
 From CV Require Import Base.Tac Base.LinAlg Base.QcLin Model.C03_GradR Model.C03_GradQ.
 From CV Require Import Proofs.C03_GradR Proofs.C03_Quad Proofs.C03_QuadR Proofs.C03_GradQ Proofs.C03_Sym Proofs.C03_LikGen Proofs.C03_Lik Proofs.C03_SymR Proofs.C03_Gallery.
-From Coq Require Import Reals QArith Qcanon.
+From CV Require Import Model.C03_Support Proofs.C03_Gram Proofs.C03_GramR Proofs.C03_Support Proofs.C03_Compose Proofs.C03_Chain.
+From Coq Require Import Reals QArith Qcanon Qreals.
 From Coquelicot Require Import Coquelicot.
 
 (* ---------------------------------------------------------------------------------------------
@@ -391,6 +392,187 @@ Theorem C03_gaussian_prec_vector_refuted :
   exists form p n, gauss_prior_kind false form p n = KScalarDot /\ (1 < n)%nat.
 Proof. exact gauss_prec_vector_refuted. Qed.
 Print Assumptions C03_gaussian_prec_vector_refuted.
+
+(* ---------------------------------------------------------------------------------------------
+   7. (third deepening round) Gram matrices: the symmetry hypotheses / tests of the GMRF and of the sqrtprec form are
+      THEOREMS.  For ANY matrix D with n columns, over any commutative ring, with the model's own transpose / matmul:
+      (D^T D) v = D^T (D v), D^T D induces a symmetric form, and transpose (D^T D) = D^T D as a matrix *)
+Theorem C03_gram_matvec : forall (A : Type) (a0 a1 : A) (add mul sub : A -> A -> A) (opp : A -> A),
+  ring_theory a0 a1 add mul sub opp (@eq A) ->
+  forall (n : nat) (D : list (list A)) (v : list A), wf_mat n D -> length v = n ->
+  matvec a0 add mul (matmul a0 add mul n (transpose a0 n D) D) v = mattvec a0 add mul n D (matvec a0 add mul D v).
+Proof. exact gram_matvec. Qed.
+Print Assumptions C03_gram_matvec.
+
+Theorem C03_gram_symmetric : forall (A : Type) (a0 a1 : A) (add mul sub : A -> A -> A) (opp : A -> A),
+  ring_theory a0 a1 add mul sub opp (@eq A) ->
+  forall (n : nat) (D : list (list A)), wf_mat n D ->
+  transpose a0 n (matmul a0 add mul n (transpose a0 n D) D) = matmul a0 add mul n (transpose a0 n D) D /\
+  sym_form A a0 add mul n (matmul a0 add mul n (transpose a0 n D) D).
+Proof. intros A a0 a1 add mul sub opp Rth n D HD. split; [exact (gram_transpose A a0 a1 add mul sub opp Rth n D HD) | exact (gram_sym_form A a0 a1 add mul sub opp Rth n D HD)]. Qed.
+Print Assumptions C03_gram_symmetric.
+
+(* the executable tests: `symb` of check_gmrf_grad and of check_gauss_prior (sqrtprec form) is implied by the Gram test *)
+Theorem C03_gram_test_implies_symmetry_test : forall (n : nat) (D : list (list Qc)),
+  wf_matb n D = true -> symb n (qmatmul n (qtranspose n D) D) = true.
+Proof. exact gram_symb. Qed.
+Print Assumptions C03_gram_test_implies_symmetry_test.
+
+Theorem C03_sqrtprec_test_implies_symmetry_test : forall (n : nat) (p : gparam) (P : list (list Qc)),
+  wf_matb n (as_matrix n p) = true -> implied_prec_ok n FSqrtPrec p P = true -> symb n P = true.
+Proof. exact implied_prec_sqrtprec_symb. Qed.
+Print Assumptions C03_sqrtprec_test_implies_symmetry_test.
+
+(* GMRF, executable model: the line identity with NO symmetry hypothesis (any difference operator D: every order,
+   boundary condition, 1-d / 2-d grid; Pop = D^T D is the test check_gmrf_grad runs on the matrices read from the object) *)
+Theorem C03_gmrf_model_line_gram : forall (n : nat) (delta : Qc) (Pop D : list (list Qc)) (m x d : list Qc) (t : Qc),
+  wf_matb n D = true -> qcll_eqb Pop (qmatmul n (qtranspose n D) D) = true ->
+  length m = n -> length x = n -> length d = n ->
+  gmrf_logk delta Pop m (qvadd x (qvscale t d)) =
+  (gmrf_logk delta Pop m x + t * qdot (gmrf_grad delta Pop m x) d - half * (t * t) * (delta * qdot d (qmatvec Pop d)))%Qc.
+Proof. exact gmrf_model_line_gram. Qed.
+Print Assumptions C03_gmrf_model_line_gram.
+
+(* ... and over R: -delta D^T D (x - mean) is the gradient, along every direction, for every D *)
+Theorem C03_gmrf_prior_gram : forall (n : nat) (delta : R) (D : list (list R)) (m x d : list R),
+  wf_mat n D -> length m = n -> length x = n -> length d = n ->
+  is_derive (fun t => rgmrf_logk delta (rgram n D) m (rvadd x (rvscale t d))) 0%R (rdot (rgmrf_grad delta (rgram n D) m x) d).
+Proof. exact gmrf_prior_gram_derive. Qed.
+Print Assumptions C03_gmrf_prior_gram.
+
+(* Gaussian._apply_prec (the repaired gradient path: sqrtprec.T @ (sqrtprec @ dev), precision never formed), executable
+   model: for EVERY matrix sqrtprec with n columns (k x n; not symmetric, not triangular, singular allowed) the vector it
+   yields satisfies the line identity of the log-kernel -1/2 |sqrtprec (x - m)|^2 -- no hypothesis beyond the shapes ... *)
+Theorem C03_sqrtprec_model_line : forall (n : nat) (S : list (list Qc)) (m x d : list Qc) (t : Qc),
+  wf_matb n S = true -> length m = n -> length x = n -> length d = n ->
+  sqrtprec_logk S m (qvadd x (qvscale t d)) =
+  (sqrtprec_logk S m x + t * qdot (sqrtprec_grad n S m x) d - half * (t * t) * qnormsq (qmatvec S d))%Qc.
+Proof. exact sqrtprec_model_line. Qed.
+Print Assumptions C03_sqrtprec_model_line.
+
+(* ... it is the gradient formula / log-kernel of the precision matrix S^T S the parameterisation stands for ... *)
+Theorem C03_sqrtprec_is_gram_precision : forall (n : nat) (S : list (list Qc)) (m x : list Qc),
+  wf_mat n S -> length m = n -> length x = n ->
+  sqrtprec_grad n S m x = quad_grad (qmatmul n (qtranspose n S) S) m x /\
+  sqrtprec_logk S m x = quad_logk (qmatmul n (qtranspose n S) S) m x.
+Proof. exact sqrtprec_grad_is_quad. Qed.
+Print Assumptions C03_sqrtprec_is_gram_precision.
+
+(* ... and over R, with the precision written out as the matrix S^T S: the gradient along every direction *)
+Theorem C03_gaussian_sqrtprec_prior : forall (n : nat) (S : list (list R)) (m x d : list R),
+  wf_mat n S -> length m = n -> length x = n -> length d = n ->
+  is_derive (fun t => rquad_logk (rgram n S) m (rvadd x (rvscale t d))) 0%R (rdot (rquad_grad (rgram n S) m x) d).
+Proof. exact gaussian_sqrtprec_derive. Qed.
+Print Assumptions C03_gaussian_sqrtprec_prior.
+
+(* ---------------------------------------------------------------------------------------------
+   8. (third deepening round) the NaN clause on the separable families.  sep_guard (Model/C03_Support.v) is the test the
+      gradient method runs on (parameters, point); it decides EXACTLY `guarded` on every coordinate ... *)
+Theorem C03_support_guard_exact : forall (f : dfamily) (a b c xs : list Q),
+  sep_guard f a b c xs = true <-> Forall2 (guarded f) (map parR (qparams (length xs) a b c)) (map Q2R xs).
+Proof. exact sep_guard_spec. Qed.
+Print Assumptions C03_support_guard_exact.
+
+(* ... a finite vector is handed back ONLY where it is the derivative: if the tests let the formula through, <formula, d>
+   is the derivative of the log-kernel along every direction (families whose test is the support of the derivative
+   theorem: Cauchy, Beta, InverseGamma, ModifiedHalfNormal, diagonal Lognormal) ... *)
+Theorem C03_vector_only_where_derivative : forall (f : dfamily) (a b c xs : list Q) (ds : list R),
+  strict_family f = true -> sep_kind f a b c xs = SVec -> length ds = length xs ->
+  is_derive (fun t => fam_logk f (map Q2R a) (map Q2R b) (map Q2R c) (rvadd (map Q2R xs) (rvscale t ds))) 0%R
+            (rdot (fam_grad f (map Q2R a) (map Q2R b) (map Q2R c) (map Q2R xs)) ds).
+Proof. exact guard_pass_gradient_is_derivative. Qed.
+Print Assumptions C03_vector_only_where_derivative.
+
+(* ... for SmoothedLaplace (its smoothing constant beta > 0 is NOT tested by the code: hypothesis) and Uniform (the test
+   is the closed box, the derivative theorem holds in its interior) the same with the missing part as hypothesis ... *)
+Theorem C03_vector_only_on_support_general : forall (f : dfamily) (a b c xs : list Q),
+  sep_kind f a b c xs = SVec ->
+  (f = SmoothedLaplace -> List.Forall (fun p : par => (0 < snd p)%R) (map parR (qparams (length xs) a b c))) ->
+  (f = Uniform -> Forall2 (fun (p : par) (x : R) => fst (fst p) <> x /\ x <> snd (fst p)) (map parR (qparams (length xs) a b c)) (map Q2R xs)) ->
+  Forall2 (supp f) (params (length (map Q2R xs)) (map Q2R a) (map Q2R b) (map Q2R c)) (map Q2R xs).
+Proof. exact guard_pass_supp_general. Qed.
+Print Assumptions C03_vector_only_on_support_general.
+
+(* ... and ONE coordinate outside the support (or one non-positive parameter the family tests) makes the answer NaN *)
+Theorem C03_outside_support_nan : forall (f : dfamily) (a b c xs : list Q) (i : nat) (p : qpar) (x : Q),
+  nth_error (qparams (length xs) a b c) i = Some p -> nth_error xs i = Some x ->
+  ~ guarded f (parR p) (Q2R x) -> sep_kind f a b c xs = SNaN.
+Proof. exact one_bad_coordinate_is_nan. Qed.
+Print Assumptions C03_outside_support_nan.
+
+Example C03_example_round3 :
+  wf_matb 2 [[qcz 1; qcz 2]; [qcz 0; qcz 3]; [qcz 1; qcz 1]] = true /\
+  sep_kind Beta ((3 # 2)%Q :: nil) ((2 # 1)%Q :: nil) (0%Q :: nil) ((1 # 4)%Q :: (1 # 2)%Q :: nil) = SVec /\
+  sep_kind Beta ((3 # 2)%Q :: nil) ((2 # 1)%Q :: nil) (0%Q :: nil) ((1 # 4)%Q :: (1 # 1)%Q :: nil) = SNaN /\ strict_family Beta = true.
+Proof. repeat split; reflexivity. Qed.
+
+(* ---------------------------------------------------------------------------------------------
+   9. (third deepening round) composites.  The model of Posterior / MultipleLikelihoodPosterior gradient lets a finite
+      vector through only if every factor produced one (then it is their sum) and the guard passed ... *)
+Theorem C03_sum_vector_only_from_vectors : forall guard parts t, check_sum_obs guard parts (ObsVec t) = true ->
+  guard = true /\ exists gs, all_vecs parts = Some gs /\ length gs = length parts /\ check_sum gs t = true.
+Proof. exact sum_obs_vector. Qed.
+Print Assumptions C03_sum_vector_only_from_vectors.
+
+(* ... one factor outside its support (nobody refusing) makes the composite's answer NaN: the NaN clause on composites ... *)
+Theorem C03_sum_nan_propagates : forall parts total, check_sum_obs true parts total = true ->
+  forallb is_vec_or_nan parts = true -> existsb is_nan_obs parts = true -> total = ObsNaN.
+Proof. exact sum_obs_nan. Qed.
+Print Assumptions C03_sum_nan_propagates.
+
+(* ... and a refusing factor or a failing guard makes it a refusal *)
+Theorem C03_sum_refusal_propagates : forall guard parts total, check_sum_obs guard parts total = true ->
+  guard = false \/ forallb is_vec_or_nan parts = false -> total = ObsRaised.
+Proof. exact sum_obs_refusal. Qed.
+Print Assumptions C03_sum_refusal_propagates.
+
+(* the directional sum rule for ANY number of densities (multiple-likelihood posterior), with the folded constant *)
+Theorem C03_mlp_directional : forall (n : nat) (fs : list (R -> R)) (gs : list (list R)) (d : list R) (c : R),
+  List.Forall (fun g : list R => length g = n) gs ->
+  Forall2 (fun f g => is_derive f 0%R (rdot g d)) fs gs ->
+  is_derive (fun t => c + fsum fs t)%R 0%R (rdot (rvsum n gs) d).
+Proof. exact mlp_directional. Qed.
+Print Assumptions C03_mlp_directional.
+
+(* the dispatch model fed with the decision of the support tests agrees with the support model (bounded families) *)
+Theorem C03_dispatch_support_tie : forall fx f df r (a b c xs : list Q),
+  dfam_of f = Some df -> bounded_support df = true ->
+  dispatch fx df GeoIdentity MeanConst r false false (sep_guard f a b c xs) =
+  match sep_kind f a b c xs with SVec => OGrad | SNaN => ONaN end.
+Proof. exact dispatch_support_tie. Qed.
+Print Assumptions C03_dispatch_support_tie.
+
+(* ---------------------------------------------------------------------------------------------
+   10. (third deepening round) THE CHAIN RULE IN GENERAL: any forward map F and any geometry map g differentiable along
+       curves (curve_diff), any functions DFt / Dgt adjoint to their derivative actions (what model._gradient_func and
+       geometry.gradient have to be; for the model: C12's statement).  The vector the code assembles,
+       geometry.gradient(model._gradient_func(P (data - F(g theta)), g theta), theta) = Dgt (DFt (P r)), is the gradient of
+       the Gaussian (Lognormal: data := ln data) log-likelihood -1/2 |data - F(g(theta))|_P^2, every direction, all sizes *)
+Theorem C03_likelihood_chain_general : forall (n m k : nat) (F g DF DFt Dg Dgt : list R -> list R)
+        (P : list (list R)) (data th d : list R),
+  wf_mat k P -> length P = k -> rtranspose k P = P -> length data = k -> length th = n -> length d = n ->
+  curve_diff m g th Dg -> curve_diff k F (g th) DF ->
+  adjoint_pair n m Dg Dgt -> adjoint_pair m k DF DFt ->
+  is_derive (fun t => let r := rvsub data (F (g (rvadd th (rvscale t d)))) in - (/ 2 * rdot r (rmatvec P r)))%R 0%R
+            (rdot (Dgt (DFt (rmatvec P (rvsub data (F (g th)))))) d).
+Proof. exact likelihood_chain_general. Qed.
+Print Assumptions C03_likelihood_chain_general.
+
+(* its hypotheses are theorems for the maps that occur: matrices (linear models, function + adjoint), elementwise maps
+   with their own derivative (mapped geometries; phi = identity: the default geometries), the polynomial family *)
+Theorem C03_chain_instances :
+  (forall (B : list (list R)) u0, curve_diff (length B) (rmatvec B) u0 (rmatvec B)) /\
+  (forall n (B : list (list R)), wf_mat n B -> adjoint_pair n (length B) (rmatvec B) (rmattvec n B)) /\
+  (forall (phi phi' : R -> R) u0, List.Forall (fun a => is_derive phi a (phi' a)) u0 ->
+     curve_diff (length u0) (emap phi) u0 (emap_d phi' u0) /\ adjoint_pair (length u0) (length u0) (emap_d phi' u0) (emap_d phi' u0)) /\
+  (forall n (A B : list (list R)) u0, wf_mat n A -> wf_mat n B -> length A = length B -> length u0 = n ->
+     curve_diff (length A) (rfwd A B) u0 (rfwd_d A B u0) /\ adjoint_pair n (length A) (rfwd_d A B u0) (rjact n A B u0)).
+Proof.
+  split; [exact curve_diff_matrix|]. split; [exact adjoint_matrix|]. split.
+  - intros phi phi' u0 H. split; [apply curve_diff_emap; exact H | apply adjoint_emap].
+  - intros n A B u0 HA HB HAB Hu. split; [apply curve_diff_poly; exact HAB | apply adjoint_poly; assumption].
+Qed.
+Print Assumptions C03_chain_instances.
 
 (* non-vacuity: the Cauchy hypotheses hold at loc = 1/2, scale = 2, x = 3/4, and a symmetric form exists *)
 Example C03_example :
